@@ -1,5 +1,6 @@
 import WfProofs.CliConfig
 import WfProofs.CliConfigHistory
+import WfProofs.CliConfigHeld
 /-!
 # C37 — llamactl never activates a profile the user did not pick in that environment
 
@@ -246,3 +247,95 @@ theorem C37_current_environment_real (ops : List Op) :
 /-- non-vacuity of the second alternative: the default row deleted while current. -/
 example : getEnv (run srcCfg (init srcCfg) [.envDelete Gen.CliConfig.defaultUrl, .createToken "p" none])
     Gen.CliConfig.defaultUrl = none := by decide
+
+/-! ## `AuthService` objects held across environment changes (model M16b)
+
+Everything above is about histories in which each profile operation goes through a fresh
+`EnvService.current_auth_service()` — what every `llamactl` command does.  The class itself is
+bound to the environment it was constructed for (`stepHeld`, binding as a parameter). -/
+
+/-- The held-service model extends the fresh one: with the binding equal to the current
+environment it is the same step, the same pick event, and the same run. -/
+theorem C37_held_extends_fresh (s : State) (op : Op) (ops : List Op) :
+    stepHeld srcCfg s s.curEnv op = step srcCfg s op ∧
+    picksAt srcCfg s s.curEnv op = picks srcCfg s op ∧
+    runH srcCfg s (ops.map HOp.fresh) = run srcCfg s ops :=
+  ⟨stepHeld_fresh _ _ _, picksAt_fresh _ _ _, runH_fresh _ _ _⟩
+
+example : stepHeld srcCfg (run srcCfg (init srcCfg) [.envUpsert "http://b" false none]) "http://b" (.createToken "p" none)
+    ≠ step srcCfg (run srcCfg (init srcCfg) [.envUpsert "http://b" false none]) (.createToken "p" none) := by decide
+
+/-- What `pickedHere` computes: the history contains an operation that selected or created the
+name `n`, through a service of environment `e`, while `e` was the current environment. -/
+theorem C37_pickedHere_means (n e : String) (s : State) (hops : List HOp) :
+    pickedHere srcCfg n e s hops = true ↔
+      ∃ pre h post, hops = pre ++ h :: post ∧ picksH srcCfg (runH srcCfg s pre) h = some n ∧
+        boundOf (runH srcCfg s pre) h = e ∧ (runH srcCfg s pre).curEnv = e :=
+  pickedHere_iff srcCfg n e hops s
+
+/-- The property's second clause over histories with arbitrary service bindings: the active
+profile is a profile of the current environment that was selected or created, through a
+service of that environment, while that environment was current. -/
+def C37_statement_held_services : Prop :=
+  ∀ (hops : List HOp) (p : Profile), active (runH srcCfg (init srcCfg) hops) = some p →
+    p.env = (runH srcCfg (init srcCfg) hops).curEnv ∧ pickedHere srcCfg p.name p.env (init srcCfg) hops = true
+
+/-- For fresh services this is exactly what `C37_active_was_picked_here` proves. -/
+theorem C37_statement_fresh_services (ops : List Op) (p : Profile)
+    (h : active (run srcCfg (init srcCfg) ops) = some p) :
+    p.env = (run srcCfg (init srcCfg) ops).curEnv ∧
+    pickedHere srcCfg p.name p.env (init srcCfg) (ops.map HOp.fresh) = true := by
+  obtain ⟨_, henv, pre, op, post, hops, hpick, hcur⟩ := C37_active_was_picked_here ops p h
+  refine ⟨henv, (pickedHere_iff _ _ _ _ _).mpr ⟨pre.map HOp.fresh, HOp.fresh op, post.map HOp.fresh, ?_, ?_, ?_, ?_⟩⟩
+  · rw [hops]; simp
+  · rw [runH_fresh, picksH_fresh]; exact hpick
+  · rw [runH_fresh]; simp only [boundOf, HOp.fresh, Option.getD_none]; rw [hcur, henv]
+  · rw [runH_fresh, hcur, henv]
+
+/-- **Refuted for held services.**  A stored environment `b` that is not current; a service
+bound to `b` creates a profile there (nothing active: `b` is not current); the user switches to
+`b` (selection cleared); a service still bound to the default environment selects the name
+`default`: now `b`'s profile `default` is active, and no operation ever selected or created that
+name through a service of `b` while `b` was current.  Needs two overlapping `llamactl`
+processes (or a program holding `AuthService` objects); no single command does this. -/
+theorem C37_held_services_refuted : ¬ C37_statement_held_services := by
+  intro h
+  have := (h [⟨none, .envUpsert "http://b" false none⟩, ⟨some "http://b", .createToken "q" none⟩,
+              ⟨none, .envSwitch "http://b"⟩, ⟨some Gen.CliConfig.defaultUrl, .select "default"⟩]
+            ⟨0, "default", "http://b", "q", none, none, none⟩ (by decide)).2
+  exact absurd this (by decide)
+
+/-- **What remains true with held services.**  If every operation that can select or create
+(`create_profile_from_token`, `create_or_update_profile_from_oidc`, `set_current_profile`,
+`select_any_profile`) goes through a service of the environment current at that moment —
+services bound to other environments being used only for `delete_profile`, `set_project`,
+`update_profile` — then after every history the current environment is known or the default, and
+the active profile is a stored profile of the current environment that was selected or created
+through a service of that environment while it was current. -/
+theorem C37_held_services_partial (hops : List HOp) (hf : FreshPicks srcCfg (init srcCfg) hops) :
+    ((runH srcCfg (init srcCfg) hops).curEnv = Gen.CliConfig.defaultUrl ∨
+      ∃ r ∈ (runH srcCfg (init srcCfg) hops).envs, r.url = (runH srcCfg (init srcCfg) hops).curEnv) ∧
+    ∀ p, active (runH srcCfg (init srcCfg) hops) = some p →
+      p ∈ (runH srcCfg (init srcCfg) hops).profiles ∧ p.env = (runH srcCfg (init srcCfg) hops).curEnv ∧
+      pickedHere srcCfg p.name p.env (init srcCfg) hops = true := by
+  refine ⟨envKnown_runH C37_source_shape.1 hops _ (inv_init C37_source_shape.1).envKnown, ?_⟩
+  intro p hp
+  obtain ⟨hptr, hmem, henv⟩ := active_some hp
+  refine ⟨hmem, henv, ?_⟩
+  rcases ptr_since C37_source_shape.1 hops _ hf p.name hptr with h | ⟨h, _⟩
+  · rw [henv]; exact h
+  · simp [init] at h
+
+/-- non-vacuity: a history with stale bindings on the non-picking operations (a `b`-bound
+service deletes and updates `b`'s profiles while the default environment is current) satisfies
+the guard, and a profile is active at the end. -/
+example : FreshPicks srcCfg (init srcCfg)
+      [⟨none, .createToken "p1" none⟩, ⟨none, .envAdd "http://b" false none⟩, ⟨none, .createToken "p2" (some "abc")⟩,
+       ⟨none, .envSwitch Gen.CliConfig.defaultUrl⟩, ⟨none, .select "default"⟩,
+       ⟨some "http://b", .setProject "abc****bc" "p9"⟩, ⟨some "http://b", .deleteProfile "abc****bc"⟩] ∧
+    (active (runH srcCfg (init srcCfg)
+      [⟨none, .createToken "p1" none⟩, ⟨none, .envAdd "http://b" false none⟩, ⟨none, .createToken "p2" (some "abc")⟩,
+       ⟨none, .envSwitch Gen.CliConfig.defaultUrl⟩, ⟨none, .select "default"⟩,
+       ⟨some "http://b", .setProject "abc****bc" "p9"⟩, ⟨some "http://b", .deleteProfile "abc****bc"⟩])).map (·.pid)
+      = some 0 := by
+  decide
